@@ -262,13 +262,14 @@ class Run:
             "level": level,
             "coverage": cov,
             "assumptions": self.assumptions,
-            "wall_s": round(wall, 2),
+            "wall_s": round(time.time() - self.t0, 2),
             "violations": len(violations) if code == 1 else 0,
         }
         os.makedirs(self.evidence_dir, exist_ok=True)
         with open(os.path.join(self.evidence_dir, '%s.json' % self.pid), 'w', encoding='utf-8') as fh:
             json.dump(ev, fh, indent=1)
         status = {0: "PASS", 1: "FAIL", 2: "UNDECIDED"}[code]
+        wall = time.time() - self.t0
         print("%s property=%s tier=%s obligations=%d discharged=%d known=%d violations=%d wall=%.1fs" % (
             status, self.pid, self.tier, self.n_obl, discharged, len(seen_known), len(violations) if code == 1 else 0, wall))
         if not os.environ.get('VERIF_KEEP'):
